@@ -21,7 +21,7 @@ import numpy as np
 import pandas as pd
 import pyarrow as pa
 
-from ..common import Driver, log
+from ..common import to_frac, Driver, log
 from .. import api
 from ..kernels import make_array, make_mask
 from .c05 import close, HALFLIFE_NS
@@ -270,7 +270,7 @@ def chunked_model_stream(res, rng, tier):
             muni += [int(x) for x in resp[ri]]; ri += 1
         mv = [atom_to_val(p[0], "f") for p in model]
         mc = [int(p[1]) for p in model]
-        iv = [None if np.isnan(x) else Fraction(float(x)) for x in np.asarray(combined, dtype="float64")[:ng].tolist()]
+        iv = [None if np.isnan(x) else to_frac(x) for x in np.asarray(combined, dtype="float64")[:ng].tolist()]
         ic = [int(x) for x in np.asarray(count)[:ng].tolist()]
         case = dict(level="chunked-model", func=func, chunk_codes=chunks, pointers=pointers, values=[None if v is None else str(v) for v in c["vals"]])
         res.note_case(repr(case), True)
